@@ -8,7 +8,7 @@ from sa.selftest import transforms
 
 name = sys.argv[1]
 pids = sys.argv[2:] or [f"C{i:02d}" for i in range(1, 21)]
-ov = transforms.WHOLE_REPO[name]("/repo")
+ov = {**transforms.WHOLE_REPO, **transforms.EXTRA}[name]("/repo")
 bad = 0
 for pid in pids:
     mod = importlib.import_module(f"sa.rules.{pid.lower()}")
